@@ -2,6 +2,8 @@ CONSTANT MaxN = 1
 CONSTANT MaxLeaves = 1
 CONSTANT MaxFeats = 1
 CONSTANT MaxLosses = 1
+CONSTANT LeafDTs = {"f64", "f32", "c128", "c64"}
+CONSTANT ConstDTs = {"f64", "c64"}
 CONSTANT SampleMod = 1
 CONSTANT SamplePick = 0
 SPECIFICATION TraceSpec
